@@ -1457,7 +1457,7 @@ class FileSet:
         try:
             # Maybe there is a file with exact this timestamp?
             path = self.get_filename(timestamp, )
-            if self.file_system.isfile(path):
+            if filters is None and self.file_system.isfile(path):
                 file_info = self.get_info(path)
                 if not self.is_excluded(file_info):
                     return file_info
